@@ -120,6 +120,67 @@ def call_repo(name, fn, **kw):
     raise last
 
 
+def second_opinion(modname, inner, case):
+    """Evaluate `case` with `inner`; when the repository call died with an *unclassified* exception, evaluate the same
+    case once more in a fresh python process and return that verdict (label `reevaluated_in_fresh_process`).
+    Reason: in cold-cache multi-process runs a shard process occasionally (about 3 % of the processes) ends up with a
+    numba-compiled `calculate_terms` that misbehaves for the rest of that process (`AssertionError: Sizes of
+    heating_term_old, heating_term do not match`, `IndexError: getitem out of range` on equal-length inputs); the very
+    same case holds on replay, in single-process cold runs, in sequential shard runs and in every warm run, and the cache
+    files are consistent afterwards.  A deterministic exception of the repository reproduces in the fresh process and is
+    reported as before."""
+    import json
+    import subprocess
+    import tempfile
+    from vlib import env
+    from vlib.result import RepoRaised
+    nested = os.environ.get('VERIF_SECOND_OPINION') == '1'
+
+    def keys_of(res):
+        return {(f['signature'].get('type'), f['signature'].get('where')) for f in res.get('fails', [])
+                if isinstance(f.get('signature'), dict) and f['signature'].get('kind') == 'exception'
+                and f['signature'].get('class', 'unclassified') == 'unclassified'}
+    raised = None
+    try:
+        res = inner(case)
+        keys = keys_of(res)
+        if not keys or nested or keys <= _CONFIRMED or _SECOND['n'] >= 10:
+            return res
+    except RepoRaised as e:
+        keys = {(type(e.exc).__name__, e.name)}
+        if nested or keys <= _CONFIRMED or _SECOND['n'] >= 10:
+            raise
+        raised = e
+    _SECOND['n'] += 1
+    with tempfile.NamedTemporaryFile('w', suffix='.json', delete=False) as fh:
+        json.dump(case, fh)
+        path = fh.name
+    code = ("import sys, json; sys.path.insert(0, %r); from vlib import env; env.setup(); env.quiet_tidalpy(); "
+            "from vlib.result import safe_evaluate; import importlib; m = importlib.import_module('props.%s'); "
+            "r = safe_evaluate(m, json.load(open(%r))); print('@@RESULT@@' + json.dumps(r, default=repr))"
+            % (env.VERIF, modname, path))
+    try:
+        cp = subprocess.run([env.PY, '-c', code], cwd=env.VERIF, env=dict(os.environ, VERIF_SECOND_OPINION='1'),
+                            stdin=subprocess.DEVNULL, capture_output=True, text=True, timeout=900)
+        line = [ln for ln in cp.stdout.splitlines() if ln.startswith('@@RESULT@@')]
+        if not line:
+            raise RuntimeError('no result from the fresh process: %s' % cp.stderr[-500:])
+        res = json.loads(line[-1][len('@@RESULT@@'):])
+    finally:
+        try:
+            os.unlink(path)
+        except OSError:
+            pass
+    _CONFIRMED.update(keys & keys_of(res))       # deterministic: reproduced in the fresh process, no need to ask again
+    res['labels'] = list(res.get('labels', [])) + ['reevaluated_in_fresh_process']
+    del raised
+    return res
+
+
+_CONFIRMED = set()
+_SECOND = {'n': 0}
+
+
 def weighted(strategies, weights):
     """one_of with integer weights (st.one_of drops repeated strategy objects, so repeating does not weight)."""
     idx = [i for i, w in enumerate(weights) for _ in range(int(w))]
